@@ -391,10 +391,12 @@ impl<'a, 'h> Interp<'a, 'h> {
             }
             Rawget => {
                 let t = self.check_table(&args, 0, "rawget")?;
+                self.charge_str(arg(&args, 1))?;
                 Ok(vec![self.tables[t as usize].get(arg(&args, 1))])
             }
             Rawset => {
                 let t = self.check_table(&args, 0, "rawset")?;
+                self.charge_str(arg(&args, 1))?;
                 self.raw_set(t, arg(&args, 1).clone(), arg(&args, 2).clone())?;
                 Ok(vec![args[0].clone()])
             }
@@ -406,6 +408,7 @@ impl<'a, 'h> Interp<'a, 'h> {
             },
             Next => {
                 let t = self.check_table(&args, 0, "next")?;
+                self.charge_str(arg(&args, 1))?;
                 match self.tables[t as usize].next(arg(&args, 1)) {
                     Ok(Some((k, v))) => Ok(vec![k, v]),
                     Ok(None) => Ok(vec![Value::Nil]),
@@ -438,9 +441,10 @@ impl<'a, 'h> Interp<'a, 'h> {
                 if i > j {
                     return Ok(Vec::new());
                 }
-                if j - i >= 100_000 {
+                if j - i >= 8000 {
                     return rt("too many results to unpack");
                 }
+                self.charge(((j - i) / 8) as u64)?;
                 let mut out = Vec::with_capacity((j - i + 1) as usize);
                 for k in i..=j {
                     out.push(self.tables[t as usize].get_int(k as f64));
@@ -527,6 +531,9 @@ impl<'a, 'h> Interp<'a, 'h> {
                 let j = if arg(&args, 3).is_nil() { self.table_len(t) } else { self.check_int(&args, 3, "concat")? };
                 let mut out: Vec<u8> = Vec::new();
                 let mut k = i;
+                if j > i {
+                    self.charge(((j - i) / 8).min(1 << 40) as u64)?;
+                }
                 while k <= j {
                     match self.tables[t as usize].get_int(k as f64) {
                         Value::Str(s) => out.extend_from_slice(&s),
@@ -537,7 +544,7 @@ impl<'a, 'h> Interp<'a, 'h> {
                         out.extend_from_slice(&sep);
                     }
                     if out.len() > MAX_STRING {
-                        return rt("string too long");
+                        return Err(Abort::OutOfSteps);
                     }
                     k += 1;
                 }
@@ -562,7 +569,7 @@ impl<'a, 'h> Interp<'a, 'h> {
                     return Ok(vec![Value::str(b"")]);
                 }
                 if (s.len() as u128) * (n as u128) > MAX_STRING as u128 {
-                    return rt("resulting string too large");
+                    return Err(Abort::OutOfSteps);
                 }
                 let out = s.repeat(n as usize);
                 Ok(vec![self.new_string(out)?])
@@ -591,6 +598,7 @@ impl<'a, 'h> Interp<'a, 'h> {
                 if i > j {
                     return Ok(Vec::new());
                 }
+                self.charge(((j - i) / 8) as u64)?;
                 Ok(s[(i - 1) as usize..j as usize].iter().map(|b| Value::Num(*b as f64)).collect())
             }
             SChar => {
@@ -718,7 +726,7 @@ impl<'a, 'h> Interp<'a, 'h> {
             }
             argi += 1;
             if out.len() > MAX_STRING {
-                return rt("string too long");
+                return Err(Abort::OutOfSteps);
             }
         }
         Ok(vec![self.new_string(out)?])
